@@ -906,7 +906,7 @@ pub fn c08(a: &Analysis, v: &mut Verdict) {
             if o == s || o == f1 || o == f2 {
                 continue;
             }
-            let sends = !matches!(r.op, Op::Stats | Op::Flush | Op::Cycle | Op::Join { .. } | Op::Spawn { .. } | Op::Sleep { .. } | Op::Advance { .. } | Op::SetReporter { .. } | Op::ReplaceReporter { .. });
+            let sends = !matches!(r.op, Op::Stats | Op::Flush | Op::Cycle | Op::Join { .. } | Op::Spawn { .. } | Op::Sleep { .. } | Op::Advance { .. } | Op::SetReporter { .. } | Op::ReplaceReporter { .. } | Op::CycleBurst { .. });
             if sends && !a.hb.before(o, f1) && !a.hb.before(s, o) {
                 quiescent = false;
                 break;
